@@ -438,6 +438,12 @@ func (tr *Tr) unop(fr *frame, x *ssa.UnOp, set func(ssa.Value, string)) {
 		if pl.kind != plObj {
 			bound = tr.loadBound(fr, pl.key)
 		}
+		if bound != tr.curA(fr) && pl.ref != "" {
+			// the older bound holds for locations of objects that existed then; an object allocated since
+			// (by a callee whose frame does not mention this key) may hold younger references
+			tr.assume(fr.curReach, implies(tr.preExisting(pl.ref, bound), tr.belowAlloc(r, bound)))
+			bound = tr.curA(fr)
+		}
 		tr.assume(fr.curReach, tr.belowAlloc(r, bound))
 		if g, ok := x.X.(*ssa.Global); ok && g.Pkg != nil && !strings.HasPrefix(g.Pkg.Pkg.Path(), modulePath) &&
 			strings.HasPrefix(g.Name(), "Err") && types.Identical(g.Type().(*types.Pointer).Elem(), types.Universe.Lookup("error").Type()) {
@@ -1096,7 +1102,29 @@ func (tr *Tr) assignTargets(fr *frame, c *Contract, env *specEnv) map[string]*as
 			// allbut T1 T2 : every heap location (fields, cells, slice elements, maps) except the fields of
 			// objects of the named struct types; locks and ghost state are untouched
 			var skip []string
+			exact := map[string]bool{}
 			for _, tn := range strings.Fields(a[7:]) {
+				if strings.HasPrefix(tn, "[]") {
+					// []T : the elements of every []T are untouched as well
+					et := env.resolveType(tn[2:])
+					skip = append(skip, tr.C.elemKey(tr.C.sortOf(et)))
+					continue
+				}
+				if strings.HasPrefix(tn, "map[") {
+					// map[K]V : membership and values of every such map are untouched as well (not its length)
+					mt, ok := env.resolveType(tn).Underlying().(*types.Map)
+					if !ok {
+						vfail("assigns %s: %s is not a map type", a, tn)
+					}
+					d, vl, _ := tr.C.mapKeys(tr.C.sortOf(mt.Key()), tr.C.sortOf(mt.Elem()))
+					skip = append(skip, d, vl)
+					continue
+				}
+				if key, err := tr.tryFieldKey(env, tn); err == nil {
+					// T.f : that one field of every T is untouched
+					exact[key] = true
+					continue
+				}
 				t := env.resolveType(tn)
 				st, ok := t.Underlying().(*types.Struct)
 				if !ok {
@@ -1106,7 +1134,7 @@ func (tr *Tr) assignTargets(fr *frame, c *Contract, env *specEnv) map[string]*as
 			}
 		keys:
 			for _, k := range tr.C.sortedHeapKeys() {
-				if k == "ALLOC" || k == "HELD" || k == "REL" || strings.HasPrefix(k, "G_") {
+				if k == "ALLOC" || k == "HELD" || k == "REL" || strings.HasPrefix(k, "G_") || exact[k] {
 					continue
 				}
 				for _, p := range skip {
@@ -1236,6 +1264,16 @@ func (tr *Tr) fieldKeyByName(env *specEnv, s string) (string, error) {
 		}
 	}
 	return "", fmt.Errorf("no field %s", s[i+1:])
+}
+
+// tryFieldKey: fieldKeyByName, with a specification failure (unknown type) turned into an error.
+func (tr *Tr) tryFieldKey(env *specEnv, s string) (key string, err error) {
+	defer func() {
+		if r := recover(); r != nil {
+			key, err = "", fmt.Errorf("%v", r)
+		}
+	}()
+	return tr.fieldKeyByName(env, s)
 }
 
 // allocSize hook (alloc_bound obligations) - filled in by contracts that ask for it
